@@ -24,7 +24,7 @@ package vuego
 
 //@ spec func attrItem(a html.Attribute) string {
 //@   (!(hasPrefix(a.Key, "[") && hasSuffix(a.Key, "]")) && directive(a.Key)) ? "" :
-//@     " " + ((hasPrefix(a.Key, "[") && hasSuffix(a.Key, "]")) ? a.Key[1:len(a.Key)-1] : a.Key) + "=\"" + Esc(a.Val) + "\"" }
+//@     " " + (a.Namespace != "" ? a.Namespace + ":" : "") + ((hasPrefix(a.Key, "[") && hasSuffix(a.Key, "]")) ? a.Key[1:len(a.Key)-1] : a.Key) + "=\"" + Esc(a.Val) + "\"" }
 //@ spec func specAttrs(as []html.Attribute, k int) string decreases k { k <= 0 ? "" : specAttrs(as, k-1) + attrItem(as[k-1]) }
 
 //@ func renderAttrs(attrs) (r)
